@@ -213,6 +213,41 @@ Temporal(d, s) ==
       ELSE IF ~dt.shape THEN [c |-> "time", v |-> N("time", TimeText(tm) \o <<124>> \o ZoneText(zone), <<>>)]
       ELSE [c |-> "datetime", v |-> N("datetime", DateText(dt) \o <<84>> \o TimeText(tm) \o <<124>> \o ZoneText(zone), <<>>)]
 
+(* the fields a temporal text denotes, for instant arithmetic: [kind, y, m, dd, H, M, S, us, zone] *)
+TemporalFields(d, s) ==
+   LET n == Len(s)
+       dt == DateAt(s, 1)
+       hasT == dt.shape /\ dt.e <= n /\ s[dt.e] = 84
+       tb == IF hasT THEN dt.e + 1 ELSE IF dt.shape THEN 0 ELSE 1
+       tm == IF tb > 0 THEN TimeAt(s, tb) ELSE [shape |-> FALSE, ok |-> FALSE, H |-> 0, M |-> 0, S |-> 0, f |-> <<>>, hasSec |-> FALSE, e |-> 0]
+       hasTime == tb > 0 /\ tm.shape
+       e1 == IF hasTime THEN tm.e ELSE dt.e
+       z == e1 <= n /\ s[e1] = 90
+       e2 == IF z THEN e1 + 1 ELSE e1
+       off == IF e2 <= n THEN OffsetAt(s, e2) ELSE 9999
+       zone == IF z THEN 0 ELSE IF off # 9999 THEN off ELSE IF DefaultUTC(d) THEN 0 ELSE Naive
+   IN [kind |-> Temporal(d, s).c, y |-> dt.y, m |-> dt.m, dd |-> dt.dd,
+       H |-> IF hasTime THEN tm.H ELSE 0, M |-> IF hasTime THEN tm.M ELSE 0, S |-> IF hasTime THEN tm.S ELSE 0,
+       us |-> IF hasTime THEN NumVal(Frac6(tm.f)) ELSE 0, zone |-> zone]
+(* days since 0001-01-01 (proleptic Gregorian) *)
+DaysBeforeYear(y) == LET p == y - 1 IN p * 365 + p \div 4 - p \div 100 + p \div 400
+RECURSIVE DaysBeforeMonth(_, _)
+DaysBeforeMonth(y, m) == IF m <= 1 THEN 0 ELSE DaysIn(y, m - 1) + DaysBeforeMonth(y, m - 1)
+Ordinal(y, m, dd) == DaysBeforeYear(y) + DaysBeforeMonth(y, m) + dd
+(* two temporal field records denote the same instant at the same precision.  A naive value and a
+   value in the reader's default zone are the same reading (the documented normalisation). *)
+SameInstant(a, b, defaultUTC) ==
+   LET za == IF a.zone = Naive /\ defaultUTC THEN 0 ELSE a.zone
+       zb == IF b.zone = Naive /\ defaultUTC THEN 0 ELSE b.zone
+   IN /\ a.kind = b.kind
+      /\ a.S = b.S /\ a.us = b.us
+      /\ IF a.kind = "date" THEN a.y = b.y /\ a.m = b.m /\ a.dd = b.dd
+         ELSE IF za = Naive \/ zb = Naive THEN za = zb /\ a.y = b.y /\ a.m = b.m /\ a.dd = b.dd /\ a.H = b.H /\ a.M = b.M
+         ELSE IF a.kind = "time" THEN ((a.H * 60 + a.M - za) - (b.H * 60 + b.M - zb)) % 1440 = 0
+         ELSE LET ma == a.H * 60 + a.M - za  mb == b.H * 60 + b.M - zb IN     \* (TLC integers are 32-bit: keep days and minutes apart)
+              /\ Ordinal(a.y, a.m, a.dd) + (ma \div 1440) = Ordinal(b.y, b.m, b.dd) + (mb \div 1440)
+              /\ ma % 1440 = mb % 1440
+
 (* ---------------- unquoted strings, identifiers ---------------- *)
 HasSub2(s, c1, c2) == \E i \in 1..(Len(s) - 1) : s[i] = c1 /\ s[i + 1] = c2
 UnquotedShape(d, s) == /\ s # <<>>
